@@ -34,6 +34,26 @@ for d in sorted(glob.glob(os.path.join(V, "seeded", "*"))):
     out.append("| %s | %s | %s | %s | %s |" % (os.path.basename(d), m.get("property"), what,
                ("`./check %s`: " % m.get("property") + ", ".join(keys)) if m.get("detected") else "**not detected**",
                m.get("history", "").replace("|", "/")))
+out.append("\n### 10.4b Behaviour-preserving refactorings (false-alarm test; written by fresh helper processes that saw only the property text)\n")
+out.append("Each refactoring passes the unedited suite and was compared by its author with the original on thousands of random and odd inputs "
+           "(differential script, no difference). `tools/benign_test.sh` applies it to a scratch worktree and runs the check: the expected outcome is "
+           "silence. The translator column shows what happened to the regenerated-model tie (`ok` = Tie theorems still prove against the refactored "
+           "source; `unavailable` = the refactored function left the translated subset, the correspondence run alone carried the property).\n")
+out.append("| refactoring | property | what was refactored | check outcome | translator tie |")
+out.append("|---|---|---|---|---|")
+for d in sorted(glob.glob(os.path.join(V, "benign", "*"))):
+    mp = os.path.join(d, "meta.json")
+    if not os.path.exists(mp):
+        continue
+    m = json.load(open(mp))
+    what = str(m.get("summary", "")).replace("|", "/").replace("\n", " ")
+    if len(what) > 380:
+        what = what[:377] + "..."
+    tt = "; ".join("%s %s%s" % (k, v.get("status"), (" (" + ", ".join(v.get("untranslatable", [])) + ")") if v.get("untranslatable") else "")
+                   for k, v in sorted((m.get("translator_tie") or {}).items())) or "-"
+    out.append("| %s | %s | %s | %s | %s |" % (os.path.basename(d), m.get("property"), what,
+               "**false alarm**: " + "; ".join(m.get("violation_lines", [])) if m.get("false_alarm") else "quiet (" + " ".join(m.get("checks_run", [])) + ")",
+               tt + ((" - " + m["note"]) if m.get("note") else "")))
 out.append("\n### 10.5 What is proved, per property (generated from coq/props/*.v and MANIFEST.json)\n")
 man = json.load(open(os.path.join(V, "MANIFEST.json")))
 claimed = {c["property_id"]: c for c in man["checks"]}
